@@ -16,13 +16,13 @@ Field level (lazy decoding replaces a string by an equal-valued object): `C18.ge
 namespace Gfa.C10
 open Driver
 
-def mutators : List String := ["g.new", "g.add", "g.rm", "g.rename", "g.multiply", "g.merge", "g.mergeall"]
+def mutators : List String := ["g.new", "g.add", "g.rm", "g.rename", "g.rmtext", "g.settag", "g.deltag", "g.multiply", "g.merge", "g.mergeall"]
 
-/-- **frame**: a command that is not one of the seven mutators leaves the model Gfa untouched -/
+/-- **frame**: a command that is not one of the ten mutators leaves the model Gfa untouched -/
 theorem step_frame (d : DState) (cmd : String) (args : List (List Char)) (h : cmd ∉ mutators) :
     (step d cmd args).1 = d := by
   simp only [mutators, List.mem_cons, List.not_mem_nil, or_false, not_or] at h
-  obtain ⟨h1, h2, h3, h4, h5, h6, h7⟩ := h
+  obtain ⟨h1, h2, h3, h4, h5, h6, h7, h8, h9, h10⟩ := h
   unfold step
   split <;> first | rfl | (exfalso; simp_all; done) | skip
   all_goals (split <;> rfl)
